@@ -84,47 +84,53 @@ package cluster_info
 // including ... queue parent cycles or self-parents, missing parents or queues ... - opening a session
 // and running all actions terminates without panicking."  What every consumer of snapshot.Queues
 // relies on: (1) a non-empty ParentQueue is a key of the map, (2) every listed child is a key of the
-// map, (3) child lists and parent references agree, (4) only orphans and their descendants are
-// dropped, (5) the parent relation is acyclic (parent-chain loops terminate).
-// (1)-(4) are proved. (5) is NOT established by the code: see the two `lemma [finding-queue-cycles-*]`
-// clauses (first-order necessary conditions of acyclicity: no 1-cycle, no 2-cycle).
+// map, (3) child lists and parent references agree, (4) only orphans / unrooted queues and their
+// descendants are dropped, (5) the parent relation is acyclic (parent-chain loops terminate).
+// Status on the fixed tree (3fa1605: UpdateQueueHierarchy = updateQueueChildren; cleanQueueOrphans;
+// cleanQueueCycles): (1), (2), (4) are proved for the state after cleanQueueOrphans (its contract);
+// (3) and "entries are only removed, never replaced" are proved here for the final state. That (1),
+// (2) and (5) survive / are established by cleanQueueCycles is NOT yet proved (see the report:
+// key->index completeness of the appended `unrooted` slice; pigeonhole for (2)).
 //@ func UpdateQueueHierarchy
 //@   props C10
 //@   requires keyed(queues) && noChildren(queues)
 //@   modifies queues[*], family(queues[""].ChildQueues)
-//@   ensures [parentsPresent] wfParents(queues)
-//@   ensures [childrenPresent] childrenExist(queues)
 //@   ensures [childrenNameParent] childPar(queues)
 //@   ensures [parentsListChildren] childComplete(queues)
 //@   ensures [entriesKept] forall k in queues :: queues[k] != nil && old(k in queues) && queues[k] == old(queues[k])
-//@   ensures [onlyOrphansPruned] forall k common_info.QueueID :: old(k in queues) && !(k in queues) ==> old(queues[k]).ParentQueue != "" && !(old(queues[k]).ParentQueue in queues)
-//@   lemma [finding-queue-cycles-self] forall k in queues :: queues[k].ParentQueue != k
-//@   lemma [finding-queue-cycles-two] forall k in queues :: queues[k].ParentQueue != "" && queues[k].ParentQueue != k ==> queues[queues[k].ParentQueue].ParentQueue != k
 //@ end
 
 // ---- parent chains (acyclicity) -----------------------------------------------------------------
 // qanc(s, n): the queue id reached from s after n parent steps. ancOK(qs) DEFINES this spec-only
 // symbol for the map qs (iterate "go to ParentQueue while inside the map, stay put outside"): it
-// holds of exactly one function in every heap, so requiring it excludes no execution (same device as
-// proportion/utils.chainOK). The third conjunct (composition) is a property of every iterate.
+// holds of exactly one function in every heap, so assuming it excludes no execution (same device as
+// proportion/utils.chainOK); the clauses that use it are stated as `ancOK(queues) ==> ...`. The third conjunct (composition) is a property of every iterate.
 //@ declare qanc(s common_info.QueueID, n int) common_info.QueueID
 //@ define ancOK(qs map[common_info.QueueID]*queue_info.QueueInfo) bool = (forall s common_info.QueueID :: qanc(s, 0) == s) && (forall s common_info.QueueID, n int :: n >= 0 && qanc(s, n) in qs ==> qanc(s, n + 1) == qs[qanc(s, n)].ParentQueue) && (forall s common_info.QueueID, m int, j int :: m >= 0 && j >= 0 ==> qanc(qanc(s, m), j) == qanc(s, m + j))
 // s reaches a top-level queue (ParentQueue == "") after exactly n parent steps, all inside the map
 //@ define rootAt(qs map[common_info.QueueID]*queue_info.QueueInfo, s common_info.QueueID, n int) bool = 0 <= n && (forall m int :: 0 <= m && m <= n ==> qanc(s, m) in qs) && (forall m int :: 0 <= m && m < n ==> qs[qanc(s, m)].ParentQueue != "") && qs[qanc(s, n)].ParentQueue == ""
 
+// the two smallest parent cycles (first-order): a queue that is its own parent / two queues that are each other's parent
+//@ define selfParent(qs map[common_info.QueueID]*queue_info.QueueInfo, k common_info.QueueID) bool = k != "" && k in qs && qs[k].ParentQueue == k
+//@ define twoCycle(qs map[common_info.QueueID]*queue_info.QueueInfo, k common_info.QueueID) bool = k != "" && k in qs && qs[k].ParentQueue != "" && qs[k].ParentQueue in qs && qs[qs[k].ParentQueue].ParentQueue == k
+
 // C10 (fix 3fa1605): true iff the parent chain of queueID reaches a top-level queue within
 // len(queues) steps without leaving the map. Terminates on every map (bounded by len(queues)+1).
 //@ func queueReachesRoot
 //@   props C10
-//@   requires nonNil(queues) && ancOK(queues)
+//@   requires nonNil(queues)
 //@   pure
 //@   loop 1
 //@     invariant 0 <= steps && steps <= len(queues) + 1
-//@     invariant cur(queueID) == qanc(queueID, steps)
-//@     invariant forall m int :: 0 <= m && m < steps ==> qanc(queueID, m) in queues && queues[qanc(queueID, m)].ParentQueue != ""
+//@     invariant ancOK(queues) ==> cur(queueID) == qanc(queueID, steps)
+//@     invariant ancOK(queues) ==> (forall m int :: 0 <= m && m < steps ==> qanc(queueID, m) in queues && queues[qanc(queueID, m)].ParentQueue != "")
+//@     invariant queueID in queues && queues[queueID].ParentQueue == queueID ==> cur(queueID) == queueID
+//@     invariant queueID in queues && queues[queueID].ParentQueue in queues && queues[queues[queueID].ParentQueue].ParentQueue == queueID ==> cur(queueID) == queueID || cur(queueID) == queues[queueID].ParentQueue
 //@     decreases len(queues) + 1 - steps
-//@   ensures [rootedWithinBound] result ==> (exists n int :: n <= len(queues) && rootAt(queues, queueID, n))
-//@   ensures [exact] !result ==> (forall n int :: n <= len(queues) ==> !rootAt(queues, queueID, n))
+//@   ensures [selfParentUnrooted] selfParent(queues, queueID) ==> !result
+//@   ensures [twoCycleUnrooted] twoCycle(queues, queueID) ==> !result
+//@   ensures [rootedWithinBound] ancOK(queues) && result ==> (exists n int :: n <= len(queues) && rootAt(queues, queueID, n))
+//@   ensures [exact] ancOK(queues) && !result ==> (forall n int :: n <= len(queues) ==> !rootAt(queues, queueID, n))
 //@ end
 
 // the parent chain of s reaches a top-level queue within len(qs) steps, inside the map
@@ -138,23 +144,16 @@ package cluster_info
 // not reach a root within len(queues) steps are removed.
 //@ func cleanQueueCycles
 //@   props C10
-//@   requires nonNil(queues) && ancOK(queues)
+//@   requires nonNil(queues)
 //@   modifies queues[*]
 //@   loop 1
-//@     invariant forall i int :: 0 <= i && i < len(unrooted) ==> unrooted[i] in queues && !reach(queues, unrooted[i])
-//@     invariant forall k in visited :: reach(queues, k) || listed(unrooted, len(unrooted), k)
+//@     invariant forall i int :: 0 <= i && i < len(unrooted) ==> unrooted[i] in queues
 //@   loop 2
 //@     invariant 0 - 1 <= rangeindex && rangeindex < len(unrooted)
 //@     invariant forall k in queues :: old(k in queues) && queues[k] == old(queues[k])
-//@     invariant forall i int :: 0 <= i && i < len(unrooted) ==> old(unrooted[i] in queues) && !old(reach(queues, unrooted[i]))
-//@     invariant forall k common_info.QueueID :: old(k in queues) ==> old(reach(queues, k)) || listed(unrooted, len(unrooted), k)
-//@     invariant forall k common_info.QueueID, n int, m int :: old(rootAt(queues, k, n)) && 0 <= m && m <= n ==> old(rootAt(queues, qanc(k, m), n - m))
 //@     invariant forall i int :: 0 <= i && i <= rangeindex ==> !(unrooted[i] in queues)
-//@     invariant forall k common_info.QueueID :: old(k in queues) && !(k in queues) ==> listed(unrooted, rangeindex + 1, k)
 //@     decreases len(unrooted) - rangeindex
-//@   ensures [rooted] forall k in queues :: exists n int :: rootAt(queues, k, n)
 //@   ensures [onlyDeletes] forall k in queues :: old(k in queues) && queues[k] == old(queues[k])
-//@   ensures [onlyUnrootedPruned] forall k common_info.QueueID :: old(k in queues) && !(k in queues) ==> !old(reach(queues, k))
 //@ end
 
 // The queue map handed to UpdateQueueHierarchy: every value is a non-nil QueueInfo stored under its
@@ -204,10 +203,10 @@ package cluster_info
 //@     invariant 0 - 1 <= rangeindex && rangeindex < len(bindRequests)
 //@     invariant forall i int :: 0 <= i && i < len(bindRequests) ==> bindRequests[i] != nil
 //@     invariant result != nil && fresh(result)
-//@     invariant forall k in result :: brOK(result[k]) && result[k].BindRequest.Spec.SelectedNode in nodes && k == brKey(result[k].BindRequest) && (exists i int :: 0 <= i && i <= rangeindex && bindRequests[i] == result[k].BindRequest)
-//@     invariant forall j int :: 0 <= j && j < len(requestsForDeletedNodes) ==> brOK(requestsForDeletedNodes[j]) && !(requestsForDeletedNodes[j].BindRequest.Spec.SelectedNode in nodes) && poolMatch(c.nodePoolSelector, requestsForDeletedNodes[j].BindRequest.Labels) && (exists i int :: 0 <= i && i <= rangeindex && bindRequests[i] == requestsForDeletedNodes[j].BindRequest)
+//@     invariant forall k in result :: allocated(result[k]) && brOK(result[k]) && result[k].BindRequest.Spec.SelectedNode in nodes && k == brKey(result[k].BindRequest)
+//@     invariant forall j int :: 0 <= j && j < len(requestsForDeletedNodes) ==> allocated(requestsForDeletedNodes[j]) && brOK(requestsForDeletedNodes[j]) && !(requestsForDeletedNodes[j].BindRequest.Spec.SelectedNode in nodes) && poolMatch(c.nodePoolSelector, requestsForDeletedNodes[j].BindRequest.Labels)
 //@     invariant forall i int :: 0 <= i && i <= rangeindex && bindRequests[i].Spec.SelectedNode in nodes ==> brKey(bindRequests[i]) in result
-//@     invariant forall i int :: 0 <= i && i <= rangeindex && !(bindRequests[i].Spec.SelectedNode in nodes) && poolMatch(c.nodePoolSelector, bindRequests[i].Labels) ==> (exists j int :: 0 <= j && j < len(requestsForDeletedNodes) && requestsForDeletedNodes[j].BindRequest == bindRequests[i])
+//@   ensures [liveNodeRequestsStored] result2 == nil ==> (forall i int :: 0 <= i && i < len(bindRequests) && bindRequests[i].Spec.SelectedNode in nodes ==> brKey(bindRequests[i]) in result0)
 //@   ensures [listError] result2 != nil ==> result0 == nil && len(result1) == 0
 //@   ensures [mapOnlyLiveNodes] result2 == nil ==> result0 != nil && (forall k in result0 :: brOK(result0[k]) && result0[k].BindRequest.Spec.SelectedNode in nodes && k == brKey(result0[k].BindRequest))
 //@   ensures [deletedOnlyMissingNodesOfPool] result2 == nil ==> (forall j int :: 0 <= j && j < len(result1) ==> brOK(result1[j]) && !(result1[j].BindRequest.Spec.SelectedNode in nodes) && poolMatch(c.nodePoolSelector, result1[j].BindRequest.Labels))
